@@ -1,4 +1,6 @@
 import Qx.Proofs.C03
+import Qx.Proofs.C03Regex
+import Qx.Proofs.C03Parser
 /-!
 # C03 — stream framing is independent of how the byte stream is split into reads
 
@@ -116,6 +118,74 @@ theorem framing_bytes_split_independent (P : Parser E) (items : List (Item E))
     events (runBytes (feedBytesCode P) chunks) = events (runBytes (feedBytesCode P) [chunks.flatten])
     ∧ events (runBytes (feedBytesCode P) chunks) = events (evsOf items) :=
   framing_bytes_split_independent_stateful P items hP chunks cps hvalid htext
+
+/-! ### The header matcher (`matchOpen` = transcription of `streamStartRegex`) -/
+
+/-- **Stable under more data.**  Once the stream-open expression has matched the buffer, appending any further text
+leaves the match and the captured open tag unchanged — so whether the header is recognised, and what is cached,
+does not depend on how much of what follows arrives in the same read. -/
+theorem matchOpen_stable_under_append (buf more t : List Char) (h : matchOpen buf = some t) :
+    matchOpen (buf ++ more) = some t :=
+  matchOpen_append_stable buf more t h
+
+/-- the captured text is a prefix of the buffer (the expression is anchored at the start) -/
+theorem matchOpen_is_prefix (buf t : List Char) (h : matchOpen buf = some t) : t <+: buf :=
+  matchOpen_prefix buf t h
+
+/-- **Exactly one open tag, quote-aware.**  What `\\s*<stream:stream(?:…)*>` matches at the start of `l` is: white
+space, the literal `<stream:stream`, a body `a` and `>`, where that `>` is the FIRST `>` outside quotes: the
+quote-aware scan of `a ++ ">"` ends exactly at its last character — not at a `>` inside a quoted attribute value,
+and not beyond the tag. -/
+theorem matchOpenTag_exactly_one_tag (l : List Char) (k : Nat) (h : matchOpenTag l = some k) :
+    ∃ ws a, l.take k = ws ++ openLit ++ a ++ ['>'] ∧ ws.all reSpace = true ∧
+      scanOpenRest none (a ++ ['>']) 0 = some (a.length + 1) :=
+  matchOpenTag_shape l k h
+
+example : matchOpen "<stream:stream id='a>b' from=\"o'brien\">".toList = some "<stream:stream id='a>b' from=\"o'brien\">".toList
+    ∧ matchOpen "<stream:stream id='a>b' from=\"o'brien\"><presence/>".toList
+        = some "<stream:stream id='a>b' from=\"o'brien\">".toList
+    ∧ matchOpen "<stream:stream id='a>b' from=\"o'bri".toList = none := by
+  decide +kernel
+
+/-! ### The parser hypothesis, for the Lean parser
+
+`PrefixOracle` has two halves.  For the concrete parser `Xml.parse` (the instance the driver uses) the first half —
+a buffer that ends on an item boundary parses to exactly the items it holds — is PROVED below for the sub-language
+of `Qx/Model/C03Wf.lean` (`Xml.parse_streamText`, from the completeness lemmas `Xml.elem_ok` / `Xml.kids_ok` that hold
+with an arbitrary continuation).
+
+NOT yet proved (so `prefixOracle_of_wellformed : WellFormedStream items → PrefixOracle Xml.parse items` is not stated):
+* the second half, rejection: for a non-empty proper prefix `p` of an item, `Xml.parse (… ++ p ++ "</stream:stream>") = none`
+  (planned: a lemma "parseAttrs fails on any `>`-free text followed by `<` or end of input" for cuts inside a tag,
+  end-tag-name mismatch for cuts inside content, by induction on the tree);
+* the assembly over all splits `items = A ++ B ++ C` (pull the split back through the item list, `matchOpen` /
+  `endsWithClose` of the segment);
+* outside the sub-language: entity and character references, double-quoted attributes, `>` inside attribute values,
+  white space inside tags, the XML declaration.
+Until then `PrefixOracle Xml.parse items` is established per corpus stream by `checkOracle` (sound:
+`checkOracle_sound`) in every run — 43 streams, all ok — next to the measurement on the real QDomDocument. -/
+
+/-- **Lean parser, first half of `PrefixOracle` (item boundary ⇒ parses to exactly the items so far), partial:
+sub-language of C03Wf.**  For every header with well-formed attributes and every list of well-formed top-level nodes
+(stanzas and white-space runs), the wrapped buffer header ++ nodes ++ `</stream:stream>` is accepted and yields
+exactly the canonical root and the canonical forms of the top-level elements, in order. -/
+theorem leanParser_complete_at_boundary_partial (hattrs : List (Xml.Str × Xml.Str)) (body : List Xml.X)
+    (hh : Xml.okAttrs hattrs = true) (hb : Xml.wfList body = true) :
+    Xml.parse (Xml.streamText hattrs body) =
+      some { root := String.ofList (Xml.canon false (Xml.toNode [] (.elem Xml.streamName hattrs body false))),
+             children := ((Xml.kidNodes (Xml.pushDecls [] hattrs) body [] []).filter Xml.isElem).map
+               fun k => String.ofList (Xml.canon true k) } :=
+  Xml.parse_streamText hattrs body hh hb
+
+/-- non-vacuity / sanity: a concrete stream text of the sub-language and what the parser returns for it -/
+example : Xml.streamText [("xmlns".toList, "jabber:client".toList)]
+      [.elem "message".toList [("to".toList, "a@b".toList)] [.elem "body".toList [] [.text "hi".toList] false] false,
+       .text " ".toList, .elem "presence".toList [] [] true]
+    = "<stream:stream xmlns='jabber:client'><message to='a@b'><body>hi</body></message> <presence/></stream:stream>".toList
+    ∧ Xml.okAttrs [("xmlns".toList, "jabber:client".toList)] = true
+    ∧ Xml.wfList [.elem "message".toList [("to".toList, "a@b".toList)] [.elem "body".toList [] [.text "hi".toList] false] false,
+       .text " ".toList, .elem "presence".toList [] [] true] = true := by
+  decide +kernel
 
 /-! ### The former defect witnesses, now delivered correctly -/
 
